@@ -111,6 +111,7 @@ STUBS = [
     "symbolic complex numbers: harness-level SymComplex(re, im) elements in an ndarray subclass with element-wise .real/.imag; np.real/np.imag facades extended accordingly",
     "boolean-mask indexing AbstractNDArray[cond] with a symbolic condition: the condition is concretised by forking before the real __getitem__ runs",
     "sqrt as an uninterpreted function in Part C only (equality of outputs needs congruence only)",
+    "np.empty / np.empty_like (float) = uninitialised memory: every entry is a fresh unconstrained solver real per call; in the replay the autoarray modules see an np.empty that returns per-call distinct contents (a legal behaviour of uninitialised memory)",
     "np.arctan2 of symbolic arguments: the engine's unit-vector angle model; phases are compared as (cos, sin) pairs",
 ]
 ASSUMPTIONS = [
@@ -307,6 +308,30 @@ def POST_INSTALL():
         return np.mean(u, axis=axis, **({} if where is None else {"where": where}), **kw)
 
     F.mean = mean
+
+    # np.empty / np.empty_like are UNINITIALISED memory: every float entry is a fresh unconstrained solver real, so an
+    # output that depends on memory the code never wrote differs between two runs of the same computation
+    _empty, _empty_like = F.empty, getattr(F, "empty_like", None)
+
+    def _uninit(shape):
+        out = np.empty(shape, dtype=object)
+        flat = out.reshape(-1)
+        for i in range(flat.shape[0]):
+            flat[i] = V.SymReal(V.ctx().fresh_real("uninit"))
+        return out.view(type(shim.obj_full((1,), np.float64(0.0))))
+
+    def empty(self, shape, dtype=None, **kw):
+        if shim.ENABLED[0] and V._CTX[0] is not None and shim._is_float_dtype(dtype):
+            return _uninit(shape)
+        return _empty(self, shape, dtype=dtype, **kw)
+
+    def empty_like(self, a, dtype=None, **kw):
+        u = hx.unwrap(a)
+        if shim.ENABLED[0] and V._CTX[0] is not None and dtype is None and isinstance(u, np.ndarray) and (u.dtype == object or u.dtype.kind == "f"):
+            return _uninit(u.shape)
+        return np.empty_like(shim.normalise(u), dtype=shim._real_dtype(dtype), **kw)
+
+    F.empty, F.empty_like = empty, empty_like
 
     # boolean-mask indexing with a symbolic condition (e.g. `y_diff[y_diff != 0]` in Grid2D.is_uniform): numpy cannot
     # index with an object array of SymBool, so the condition is concretised by forking before the REAL method runs.
@@ -866,6 +891,7 @@ def level_array(inp, mask_id, cls, sn, full=False):
             ("d=x.slim", "derive", _setd(lambda G: G["x"].slim)),
             ("d=x.trimmed_after_convolution_from((3,1))", "derive", _setd(lambda G: G["x"].trimmed_after_convolution_from(kernel_shape=(3, 1)))),
             ("d=x.resized_from", "derive", _setd(lambda G: G["x"].resized_from(new_shape=(H + 1, W + 2)))),
+            ("d=x.zoomed_around_mask(1)", "derive", _setd(lambda G: G["x"].zoomed_around_mask(buffer=1))),    # window reaches beyond the array
             ("d=d*c", "derive", _setd(lambda G: G["d"] * c)),
             ("d=d.native", "derive", _setd(lambda G: G["d"].native))]
     if kernel:
@@ -1785,7 +1811,39 @@ def cases(tier):
     return out
 
 
+class _NPUninitNative:
+    """replay only: numpy as seen by the autoarray modules, with np.empty / empty_like returning per-call DISTINCT contents -
+    one legal behaviour of uninitialised memory, chosen so that a dependence on it cannot be hidden by a lucky heap"""
+    _count = [0]
+
+    def __init__(self, base):
+        object.__setattr__(self, "_base", base)
+
+    def __getattr__(self, name):
+        return getattr(self._base, name)
+
+    def _fill(self, a):
+        if a.dtype.kind == "f":
+            self._count[0] += 1
+            a[...] = 1.0e6 * self._count[0] + 0.5
+        return a
+
+    def empty(self, *a, **kw):
+        return self._fill(np.empty(*a, **kw))
+
+    def empty_like(self, *a, **kw):
+        return self._fill(np.empty_like(*a, **kw))
+
+
+def _poison_empty_in_replay():
+    import sys
+    for name, mod in list(sys.modules.items()):
+        if mod is not None and (name == "autoarray" or name.startswith("autoarray.")) and mod.__dict__.get("np") is np:
+            mod.__dict__["np"] = _NPUninitNative(np)
+
+
 def replay(cand):
+    _poison_empty_in_replay()
     cand = dict(cand)
     kw = dict(cand["case_kwargs"])
     if cand["case_fn"].startswith("case_hist_"):
